@@ -419,6 +419,52 @@ def register(E):
         return True
     I['(*sync.Mutex).TryLock'] = mu_trylock
 
+    # sync.Map: a dictionary per map object. What is stored before the first path (package init, set-up function)
+    # is the base every path starts from; keys are compared by value (strings / ints / pointers)
+    def sm_key(E, k):
+        if type(k) is Iface:
+            v = k.v
+            if isinstance(v, (bytes, int, bool)):
+                return (k.t, v)
+            if type(v) is SymStr and all(type(b) is int for b in v.bs):
+                return (k.t, bytes(v.bs))
+            if type(v) is Ptr:
+                return (k.t, id(v.obj), v.path)
+            raise Unsupported('sync.Map key of this kind')
+        if k is None:
+            return None
+        raise Unsupported('sync.Map key')
+
+    def sm_of(E, p):
+        return E.syncmaps.setdefault((id(p.obj), p.path), {})
+
+    def sm_load(E, args):
+        m = sm_of(E, args[0])
+        k = sm_key(E, args[1])
+        if k in m:
+            return (m[k], True)
+        return (None, False)
+    I['(*sync.Map).Load'] = sm_load
+
+    def sm_store(E, args):
+        sm_of(E, args[0])[sm_key(E, args[1])] = args[2]
+        return None
+    I['(*sync.Map).Store'] = sm_store
+
+    def sm_loadorstore(E, args):
+        m = sm_of(E, args[0])
+        k = sm_key(E, args[1])
+        if k in m:
+            return (m[k], True)
+        m[k] = args[2]
+        return (args[2], False)
+    I['(*sync.Map).LoadOrStore'] = sm_loadorstore
+
+    def sm_delete(E, args):
+        sm_of(E, args[0]).pop(sm_key(E, args[1]), None)
+        return None
+    I['(*sync.Map).Delete'] = sm_delete
+
     def wg_key(p):
         return (id(p.obj), p.path)
 
